@@ -225,6 +225,7 @@ type Decision struct {
 	Choice int      `json:"choice"`
 	N      int      `json:"n"`
 	Cands  []string `json:"cands,omitempty"` // for switches: the case expressions, in choice order (last = default/none)
+	Fn     string   `json:"fn,omitempty"`    // generator function that asked
 }
 
 // Request is a helper function requested through GetFuncName.
@@ -263,6 +264,7 @@ type Interp struct {
 	recCut     bool
 	predCalls  []predCall
 	recN       int
+	callNames  []string
 	g9mode     bool // tabulating a predicate: helper predicates are interpreted, only recursive calls are answered by the oracle
 }
 
@@ -401,7 +403,11 @@ func (in *Interp) decide(sym string, n int) int {
 	}
 	c := in.or.choose(n)
 	in.memo[sym] = c
-	in.decisions = append(in.decisions, Decision{Sym: sym, Choice: c, N: n})
+	fnName := ""
+	if len(in.callNames) > 0 {
+		fnName = in.callNames[len(in.callNames)-1]
+	}
+	in.decisions = append(in.decisions, Decision{Sym: sym, Choice: c, N: n, Fn: fnName})
 	return c
 }
 
@@ -555,7 +561,8 @@ func (in *Interp) callFunc(fn *VFunc, args []Value, callPos token.Pos) Value {
 			return VTuple{vs}
 		}
 		in.stack[fn.Decl]++
-		defer func() { in.stack[fn.Decl]-- }()
+		in.callNames = append(in.callNames, fn.Pkg.Name+"."+fn.Decl.Name.Name)
+		defer func() { in.stack[fn.Decl]--; in.callNames = in.callNames[:len(in.callNames)-1] }()
 	}
 	if recv != nil && len(recv.List) == 1 && len(recv.List[0].Names) == 1 {
 		v := fn.Recv
